@@ -151,7 +151,11 @@ func (L *Loaded) harnessFunc(pkgDir, name string) *ssa.Function {
 }
 
 // interpretInit: packages whose init function is executed (concretely) on first global access.
-func (L *Loaded) interpretInit(p *ssa.Package) bool {
+// eagerInit: packages whose initialiser runs as part of its importers' initialisers (Go's order). All other packages
+// with an interpretable initialiser are initialised lazily, the first time one of their package-level variables is
+// touched: equivalent for initialisers that only fill their own tables, and it keeps every path from paying for the
+// initialisers of the whole import graph.
+func (L *Loaded) eagerInit(p *ssa.Package) bool {
 	path := p.Pkg.Path()
 	if strings.HasPrefix(path, repoMod) {
 		return true
@@ -162,6 +166,40 @@ func (L *Loaded) interpretInit(p *ssa.Package) bool {
 	}
 	return false
 }
+
+func (L *Loaded) interpretInit(p *ssa.Package) bool {
+	path := p.Pkg.Path()
+	if L.eagerInit(p) {
+		return true
+	}
+	// every other package whose functions are interpreted gets its initialiser run as well: interpreting code over
+	// zero-valued package tables (math/bits' de Bruijn tables, say) is silently wrong. A part of an initialiser that
+	// cannot be modelled aborts the path (inconclusive), it is never skipped.
+	if denyPkgs[path] {
+		return false
+	}
+	if _, ok := initSkipOK[path]; ok {
+		return false
+	}
+	for _, pre := range denyPrefixes {
+		if strings.HasPrefix(path, pre) {
+			return false
+		}
+	}
+	// standard-library packages only (no dot in the first path element); other dependencies keep their explicit list above
+	first := path
+	if i := strings.Index(path, "/"); i >= 0 {
+		first = path[:i]
+	}
+	return !strings.Contains(first, ".")
+}
+
+// packages whose functions are interpreted but whose initialiser is not run, each with the reason this is harmless
+var initSkipOK = map[string]string{
+	"errors": "its only package-level state is errorType (reflectlite), used by errors.As, which is not modelled (aborts)",
+}
+
+var denyPrefixes = []string{"github.com/tink-crypto/", "github.com/aws/", "crypto/", "net/", "runtime/", "internal/", "google.golang.org/", "tailscale.com/client/", "tailscale.com/tsnet", "tailscale.com/metrics"}
 
 var denyPkgs = map[string]bool{
 	"encoding/json": true, "reflect": true, "internal/reflectlite": true, "os": true, "syscall": true,
@@ -185,7 +223,7 @@ func (L *Loaded) denyInterpret(fn *ssa.Function) bool {
 	if denyPkgs[path] {
 		return true
 	}
-	for _, pre := range []string{"github.com/tink-crypto/", "github.com/aws/", "crypto/", "net/", "runtime/", "internal/", "google.golang.org/", "tailscale.com/client/", "tailscale.com/tsnet", "tailscale.com/metrics"} {
+	for _, pre := range denyPrefixes {
 		if strings.HasPrefix(path, pre) {
 			return true
 		}
